@@ -361,3 +361,22 @@ ADDENDA_R5 = {
             "the fptr table is read only by get_fptr(); the unique-name lookup does not depend on it",
             "who-may-read"),
 }
+
+
+# Round 6 (DESIGN.md sections 8 and 9).
+ADDENDA_R6 = {
+    "C02": ("R02.9", "key/keyword comparisons in the argument extractors of the pasted Python runtime (py_support.cxx, analysed as an extra unit) mean `equal` under their CPython function's convention", "API-convention table over resolved callees"),
+    "C04": ("ignoremember gate of R04.2", "ignoremember also filters data members (found F-C04c)", "gated reachability"),
+    "C05": ("R05.10", "every grammar action that assigns a semantic value assigns it on every path unless $1 is the rule's own nonterminal (found F-C05c)", "path coverage over action text"),
+    "C06": ("R06.12", "const and typedef layers are peeled in one joint loop in both find_scope overloads", "loop-structure sibling agreement"),
+    "C07": ("R07.14", "the arms of the short-circuit operators use the second operand's value only after testing that it was evaluated", "reachability from the arm entry"),
+    "C09": ("R09.8, R09.9", "a literal header name is never macro-expanded (#include and __has_include); the directive-argument collector keeps string and character literals intact (found F-C08b: `#define URL \"http://x\"`)", "guard-shape check"),
+    "C10": ("R10.8, R10.9", "an inherited virtual is erased only together with marking its overrider virtual; is_convertible_to answers yes only on a positive nested answer (found F-C10h)", "must-pass-through within the scan loop"),
+    "C11": ("R11.9", "the counter of a finished loop is not used as a position", "position-aware dirty propagation"),
+    "C12": ("R12.8, R12.9", "the C-string reader terminates its buffer; record objects filled in reader loops are made per iteration", "must-pass-through; declaration-scope check"),
+    "C13": ("R13.6", "merge_from's local table of loaded types is keyed and looked up by true name", "key-role agreement"),
+    "C15": ("R15.21", "CPPScope::get_struct_type() is dereferenced only behind a null test (found F-C15q, valid C++)", "nullable call-result analysis"),
+    "C18": ("R18.7", "DiyFp::operator* computes the rounded upper half of the 128-bit product (statement interpreter over the tree, branch of the real compiler)", "abstract execution of a function body on samples"),
+    "C19": ("ostreambuf_iterator clause of R19.b", "no write through a stream-buffer iterator (indent() included)", "who-may-call"),
+    "C20": ("R20.10", "every parameterless int/bool accessor of a record class yields 0 on the default-constructed placeholder (found F-C20c)", "expression evaluation on constructor defaults"),
+}
